@@ -37,51 +37,93 @@ func Shrink(tape []Entry, test func([]Entry) ([]Entry, bool), budget int) ([]Ent
 		}
 		return out
 	}
-	// pass 1: block deletion to fixpoint
-	for changed := true; changed && used < budget; {
-		changed = false
-		bl := blocks(cur)
-		// outermost first, later first
-		for d := 0; d < 6 && !changed; d++ {
-			for i := len(bl) - 1; i >= 0; i-- {
-				b := bl[i]
-				if b.depth != d {
-					continue
-				}
-				cand := append(append([]Entry(nil), cur[:b.a]...), cur[b.b+1:]...)
-				if try(cand) {
-					changed = true
-					break
-				}
-			}
-		}
-	}
-	// pass 2: truncate the tail (choices past the end replay as 0)
-	for n := len(cur) / 2; n >= 1 && used < budget; n /= 2 {
-		if len(cur) > n {
-			cand := append([]Entry(nil), cur[:len(cur)-n]...)
-			if try(cand) {
-				n *= 2
-			}
-		}
-	}
-	// pass 3: zero / halve values
+	// pass 0: simplest configuration first (zero every choice whose label marks a
+	// configuration or a count: fewer tasks, keys, clients)
 	for i := 0; i < len(cur) && used < budget; i++ {
-		if cur[i].N == 0 || cur[i].V == 0 {
+		l := cur[i].L
+		if cur[i].N == 0 || cur[i].V == 0 || !(len(l) > 4 && l[:4] == "cfg." || len(l) > 1 && l[0] == 'n') {
 			continue
 		}
 		cand := append([]Entry(nil), cur...)
 		cand[i].V = 0
-		if try(cand) {
-			continue
+		try(cand)
+	}
+	for round := 0; round < 4 && used < budget; round++ {
+		before := len(cur)
+		zerosBefore := countNonZero(cur)
+		// pass 1: block deletion to fixpoint
+		for changed := true; changed && used < budget; {
+			changed = false
+			bl := blocks(cur)
+			// outermost first, later first
+			for d := 0; d < 6 && !changed; d++ {
+				for i := len(bl) - 1; i >= 0; i-- {
+					b := bl[i]
+					if b.depth != d {
+						continue
+					}
+					cand := append(append([]Entry(nil), cur[:b.a]...), cur[b.b+1:]...)
+					if try(cand) {
+						changed = true
+						break
+					}
+				}
+			}
 		}
-		for v := cur[i].V / 2; v > 0 && used < budget && i < len(cur); v /= 2 {
-			cand := append([]Entry(nil), cur...)
-			cand[i].V = v
-			if !try(cand) {
+		// pass 1b: delta debugging over contiguous chunks of the tape (halving sizes);
+		// this is what shortens schedule-dependent failures, whose decisive choices
+		// are not inside any labelled block
+		for size := len(cur) / 2; size >= 1 && used < budget; size /= 2 {
+			if min := len(cur) / 64; size < min {
 				break
 			}
+			for i := 0; i+size <= len(cur) && used < budget; {
+				cand := append(append([]Entry(nil), cur[:i]...), cur[i+size:]...)
+				if !try(cand) {
+					i += size
+				}
+			}
+		}
+		// pass 2: truncate the tail (choices past the end replay as 0)
+		for n := len(cur) / 2; n >= 1 && used < budget; n /= 2 {
+			if len(cur) > n {
+				cand := append([]Entry(nil), cur[:len(cur)-n]...)
+				if try(cand) {
+					n *= 2
+				}
+			}
+		}
+		// pass 3: zero / halve values
+		for i := 0; i < len(cur) && used < budget; i++ {
+			if cur[i].N == 0 || cur[i].V == 0 {
+				continue
+			}
+			cand := append([]Entry(nil), cur...)
+			cand[i].V = 0
+			if try(cand) {
+				continue
+			}
+			for v := cur[i].V / 2; v > 0 && used < budget && i < len(cur); v /= 2 {
+				cand := append([]Entry(nil), cur...)
+				cand[i].V = v
+				if !try(cand) {
+					break
+				}
+			}
+		}
+		if len(cur) >= before && countNonZero(cur) >= zerosBefore {
+			break
 		}
 	}
 	return cur, used
+}
+
+func countNonZero(t []Entry) int {
+	n := 0
+	for _, e := range t {
+		if e.N > 0 && e.V != 0 {
+			n++
+		}
+	}
+	return n
 }
